@@ -3872,6 +3872,12 @@ check_token_size(coap_session_t *session, const coap_pdu_t *pdu) {
   return 1;
 }
 
+#ifdef COAP_VERIF_HOOKS
+/* verification hook: observes every PDU handed to coap_dispatch(); a non-zero
+ * return makes coap_dispatch() return without processing the PDU */
+int (*coap_verif_dispatch_hook)(coap_session_t *session, coap_pdu_t *pdu) = NULL;
+#endif /* COAP_VERIF_HOOKS */
+
 void
 coap_dispatch(coap_context_t *context, coap_session_t *session,
               coap_pdu_t *pdu) {
@@ -3886,6 +3892,10 @@ coap_dispatch(coap_context_t *context, coap_session_t *session,
 #endif /* COAP_OSCORE_SUPPORT */
   int is_ext_token_rst;
 
+#ifdef COAP_VERIF_HOOKS
+  if (coap_verif_dispatch_hook && coap_verif_dispatch_hook(session, pdu))
+    return;
+#endif /* COAP_VERIF_HOOKS */
   pdu->session = session;
   coap_show_pdu(COAP_LOG_DEBUG, pdu);
 
